@@ -91,13 +91,16 @@ class TextSendStream(ObjectSendStream[str]):
     transport_stream: AnyByteSendStream
     encoding: InitVar[str] = "utf-8"
     errors: str = "strict"
-    _encoder: Callable[..., tuple[bytes, int]] = field(init=False)
+    _encoder: codecs.IncrementalEncoder = field(init=False)
 
     def __post_init__(self, encoding: str) -> None:
-        self._encoder = codecs.getencoder(encoding)
+        # An incremental encoder emits a byte order mark (utf-16, utf-32) only once
+        # per stream instead of once per sent item
+        self._encoder = codecs.getincrementalencoder(encoding)(errors=self.errors)
 
     async def send(self, item: str) -> None:
-        encoded = self._encoder(item, self.errors)[0]
+        self._encoder.errors = self.errors
+        encoded = self._encoder.encode(item)
         await self.transport_stream.send(encoded)
 
     async def aclose(self) -> None:
